@@ -392,6 +392,9 @@ def r5(ctx):
         o.rule = 'C14-R5'
         ctx.obligations.append(o)
     ctx.counters['abstract_cases'] += sub.counters['abstract_cases']
+    # ... computed from the current fragments (C13-R6), from arbitrated fragment calls (C13-R7), with the safe-span request applied as given (C13-R8)
+    from ..core import include
+    include(ctx, C13, [C13.r6, C13.r7, C13.r8], 'C14-R5')
 
 
 META = {
